@@ -342,6 +342,15 @@ func pathOf1(v ssa.Value, depth int) string {
 				}
 				return
 			}
+			// a window of the same memory (rest = rest[n:]) names what it is a window of
+			switch y := x.(type) {
+			case *ssa.Slice:
+				walk(y.X)
+				return
+			case *ssa.ChangeType:
+				walk(y.X)
+				return
+			}
 			if !isNilConst(x) {
 				leaves = append(leaves, x)
 			}
